@@ -16,6 +16,10 @@ From PBK Require Import Base Bits.
 (* constants.NBITS_FOR_NBITS_DIFF *)
 Definition NBITS_FOR_NBITS_DIFF : Z := 6.
 
+(* inconsistent compressed data ("nbits_diff must be zero ..."): a PyBufrKitError after
+   "fix: inconsistent compressed data is reported as PyBufrKitError" (an assert before) *)
+Definition EBadColumn : err := ELib.
+
 (* ---- encoder.nbits_for_uint ------------------------------------------------
    binx = bin(x)[2:]; nbits = len(binx); +1 when binx consists of ones only.
    For x = 0 Python gives bin(0) = '0b0' -> '0': length 1, count('1') = 0 <> 1,
@@ -119,7 +123,7 @@ Definition dec_col_num (w : Z) (n : nat) (r : reader) : result (list (option N) 
   let* (mn, r1) := read_uint_or_none w r in
   let* (nd, r2) := read_uint NBITS_FOR_NBITS_DIFF r1 in
   match mn with
-  | None => if (nd =? 0)%N then Ok (repeat None n, r2) else Err EAssert
+  | None => if (nd =? 0)%N then Ok (repeat None n, r2) else Err EBadColumn
   | Some m => if (nd =? 0)%N then Ok (repeat (Some m) n, r2) else dec_incs_num nd m n r2
   end.
 
@@ -151,11 +155,11 @@ Definition dec_col_codeflag (w : Z) (dnbits : Z) (n : nat) (r : reader)
   let* (mn, r1) := read_uint_or_none w r in
   let* (nd, r2) := read_uint NBITS_FOR_NBITS_DIFF r1 in
   if opt_is_none mn || (nd =? 0)%N then
-    if (nd =? 0)%N then Ok (repeat mn n, r2) else Err EAssert
+    if (nd =? 0)%N then Ok (repeat mn n, r2) else Err EBadColumn
   else
     match mn with
     | Some m => dec_incs_codeflag nd dnbits m n r2
-    | None => Err EAssert        (* unreachable: opt_is_none mn was false *)
+    | None => Err EBadColumn        (* unreachable: opt_is_none mn was false *)
     end.
 
 (* ---- character columns ---------------------------------------------------------
@@ -251,7 +255,7 @@ Definition enc_col_refval (w : Z) (all_equal : bool) (v : option Z) (o : writer)
 Definition dec_col_refval (w : Z) (n : nat) (r : reader) : result (Z * reader) :=
   let* (mn, r1) := read_int w r in
   let* (nd, r2) := read_uint NBITS_FOR_NBITS_DIFF r1 in
-  if (nd =? 0)%N then Ok (mn, r2) else Err EAssert.
+  if (nd =? 0)%N then Ok (mn, r2) else Err EBadColumn.
 
 (* ---- constants (222000 etc.): no bits; the encoder asserts
    all_equal and values[0] == value, the decoder appends the value n times *)
@@ -326,7 +330,7 @@ Definition spec_dec_col_num (w : Z) (n : nat) (r : reader) : result (list (optio
   let r0_missing := (1 <? w)%Z && bits_all_ones b0 in
   match N.to_nat (of_bits bw) with
   | O => Ok (repeat (if r0_missing then None else Some (of_bits b0)) n, r2)
-  | S _ as nb => if r0_missing then Err EAssert else spec_incs nb (of_bits b0) n r2
+  | S _ as nb => if r0_missing then Err EBadColumn else spec_incs nb (of_bits b0) n r2
   end.
 
 (* A spec-level writer that lays a column out with ANY base and ANY increment
